@@ -22,7 +22,7 @@ def unlist (t : String) : Option (List Str) :=
 
 def errStr : Err → String
   | .noRun => "norun" | .noListener => "noexist" | .authFailed => "auth" | .notAllowed => "notallowed"
-  | .lclosed => "closed"
+  | .lclosed => "closed" | .encFailed => "encfail"
 
 def flag (t : String) (pfx : String) : Option Bool :=
   if t = pfx ++ "1" then some true else if t = pfx ++ "0" then some false else none
@@ -31,10 +31,15 @@ def kindOf (t : String) : Option Kind :=
   if t = "stcp" then some .stcp else if t = "sudp" then some .sudp else if t = "xtcp" then some .xtcp else none
 
 structure St where
-  A : Visitor.State := {}
+  A : Visitor.CState := {}                  -- layer A: the manager with its lock (Frp/Model/VisitorLock.lean)
   B : Visitor.State := {}
   zombies : List (Nat × List Nat) := []     -- listeners removed from the manager while holding connections
   nsid : Nat := 0
+  opened : List Nat := []                   -- accepted streams
+  -- what the implementation itself has said so far (independent of the model's state): the listeners it
+  -- reported as made (lid ↦ key, list, from `listen … => ok:<lid>`) and the requests sent (conn id ↦ ts, sign, user)
+  implLs : List (Nat × Str × List Str) := []
+  reqs : List (Nat × Int × Str × Str) := []
 
 def sidOf (n : Nat) : Str := 115 :: (Nat.toDigits 10 n).map (·.toNat)
 
@@ -46,14 +51,74 @@ def ins (x : Nat × List Nat) : List (Nat × List Nat) → List (Nat × List Nat
   | y :: r => if x.1 ≤ y.1 then x :: y :: r else y :: ins x r
 
 def drainStr (s : St) : String :=
-  let live := s.A.listeners.filterMap (fun p => if p.2.queue.isEmpty then none else some (p.2.lid, p.2.queue.map (·.conn)))
+  let live := s.A.s.listeners.filterMap (fun p => if p.2.queue.isEmpty then none else some (p.2.lid, p.2.queue.map (·.conn)))
   let all := (live ++ s.zombies).foldr ins []
   if all.isEmpty then "-" else "|".intercalate (all.map (fun p => s!"{p.1}={connsStr p.2}"))
 
-def zombieOf (s : Visitor.State) (name : Str) : List (Nat × List Nat) :=
-  match NatHole.aget s.listeners name with
-  | some l => if l.queue.isEmpty then [] else [(l.lid, l.queue.map (·.conn))]
-  | none => []
+/-- listeners of `before` that are no longer in `after` while connections wait in them (`extra` = the
+    connection handed over between the two, if any: (lid, conn)) -/
+def goneOf (before after : Visitor.State) (extra : Option (Nat × Nat)) : List (Nat × List Nat) :=
+  before.listeners.filterMap (fun p =>
+    if after.listeners.any (fun q => q.2.lid == p.2.lid) then none else
+    let cs := p.2.queue.map (·.conn) ++ (match extra with | some (lid, c) => if lid = p.2.lid then [c] else [] | none => [])
+    if cs.isEmpty then none else some (p.2.lid, cs))
+
+def lookupNat {α : Type} (l : List (Nat × α)) (k : Nat) : Option α := (l.find? (fun p => p.1 == k)).map (·.2)
+
+/-- C08 on one observed delivery, from the implementation's own answers: connection `conn` came out of
+    listener `lid` ⇒ its request carries that listener's key and an allowed user (`C08.deliveredOkB`).
+    `none` when the implementation names a listener or connection it never reported before. -/
+def deliveredOk (st : St) (lid conn : Nat) : Option Bool :=
+  match lookupNat st.implLs lid, lookupNat st.reqs conn with
+  | some (sk, allow), some (ts, sign, user) => some (C08.deliveredOkB H sk allow ts sign user)
+  | _, _ => none
+
+def andOpt : Option Bool → Option Bool → Option Bool
+  | some a, some b => some (a && b)
+  | some a, none => some a
+  | none, b => b
+
+/-- "c7@3[:bytes-bad]" ↦ (7, 3, bytes ok) -/
+def parseAccepted (impl : String) : Option (Nat × Nat × Bool) :=
+  if !impl.startsWith "c" then none else
+  let body := (impl.drop 1).toString
+  let (core, okb) := if body.endsWith ":bytes-bad" then ((body.dropEnd 10).toString, false) else (body, true)
+  match core.splitOn "@" with
+  | [c, l] => match c.toNat?, l.toNat? with
+    | some c, some l => some (c, l, okb)
+    | _, _ => none
+  | _ => none
+
+/-- "3=7,8|5=9" ↦ [(3,7),(3,8),(5,9)] -/
+def parseDrain (impl : String) : List (Nat × Nat) :=
+  if impl = "-" then [] else
+  (impl.splitOn "|").flatMap (fun part =>
+    match part.splitOn "=" with
+    | [l, ids] => match l.toNat? with
+      | some l => (ids.splitOn ",").filterMap (fun i => i.toNat?.map (fun c => (l, c)))
+      | none => []
+    | _ => [])
+
+/-- the ok:<lid> answers inside "… w=[-,ok:5,repeated]", paired with the writers that were waiting -/
+def implListens (pending : List WOp) (impl : String) : List (Nat × Str × List Str) :=
+  match impl.splitOn " w=[" with
+  | [_, rest] =>
+    let items := ((rest.dropEnd 1).toString.splitOn ",")
+    (pending.zip items).filterMap (fun (w, r) =>
+      match w with
+      | .listen _ sk allow => if r.startsWith "ok:" then (r.drop 3).toString.toNat?.map (fun lid => (lid, sk, allow)) else none
+      | .close _ => none)
+  | _ => []
+
+def outStr : Visitor.Out → String
+  | .ok => "ok" | .repeated => "repeated" | _ => "?"
+
+/-- results of the writers that ran after a `finish`, in the harness's notation -/
+def flushStr : Nat → List WOp → List Visitor.Out → List String
+  | id, (.listen ..) :: ws, .ok :: os => s!"ok:{id}" :: flushStr (id + 1) ws os
+  | id, (.listen ..) :: ws, _ :: os => "repeated" :: flushStr id ws os
+  | id, (.close _) :: ws, _ :: os => "-" :: flushStr id ws os
+  | _, _, _ => []
 
 /-- the generator's annotation `ua=` must agree with the model's table (else the line is malformed) -/
 def uaOk (cfgs : List (Str × NatCfg)) (name user : Str) (ua : Bool) : Bool :=
@@ -66,6 +131,20 @@ def connOutStr : ConnOut → String
 
 def grantedImpl (impl : String) : Bool := !(impl.startsWith "err:") && impl != "preok"
 
+/-- `conn` / `vbegin`: one NewConn call -/
+def beginOp (st : St) (op name ts sign user conn ec impl : String) : St × Verdict :=
+    match unhx name, ts.toInt?, unhx sign, unhx user, conn.toNat? with
+    | some name, some ts, some sign, some user, some conn =>
+      -- `conn`: the IV gate is not armed, NewConn runs to its end whatever it declares
+      let enc := op == "vbegin" && ec.startsWith "1"
+      let valid := C08.admissibleB H st.A.s.listeners name ts sign user
+      let (a, o) := Visitor.cstep natFixed H st.A
+        (.begin { name := name, ts := ts, sign := sign, user := user, conn := conn, enc := enc })
+      let ms := match o with | .conn c => connOutStr c | .paused => "paused" | .wouldBlock => "wouldblock" | _ => "?"
+      let prop := if impl = "paused" || impl = "wouldblock" then none else some (C08.holdsOn valid (grantedImpl impl))
+      ({ st with A := a, reqs := (conn, ts, sign, user) :: st.reqs }, verdictOf ms impl prop)
+    | _, _, _, _, _ => (st, .bad op)
+
 def step (st : St) (tok : List String) (impl : String) : St × Verdict :=
   match tok with
   | ["reset"] => ({}, verdictOf "-" impl)
@@ -77,61 +156,93 @@ def step (st : St) (tok : List String) (impl : String) : St × Verdict :=
   | ["listen", name, sk, allow] =>
     match unhx name, unhx sk, unlist allow with
     | some name, some sk, some allow =>
-      let id := st.A.nextId
-      let (a, o) := Visitor.step natFixed H st.A (.listen name sk allow)
-      ({ st with A := a }, verdictOf (if o = .ok then s!"ok:{id}" else "repeated") impl)
+      let id := st.A.s.nextId
+      let (a, o) := Visitor.cstep natFixed H st.A (.write (.listen name sk allow))
+      let ms := match o with | .wrote .ok => s!"ok:{id}" | .wrote _ => "repeated" | .blocked => "blocked" | _ => "?"
+      let il := if impl.startsWith "ok:" then
+          (match (impl.drop 3).toString.toNat? with | some lid => [(lid, sk, allow)] | none => []) else []
+      ({ st with A := a, implLs := il ++ st.implLs }, verdictOf ms impl)
     | _, _, _ => (st, .bad "listen")
   | ["nlisten", name, sk, allow] =>
     match unhx name, unhx sk, unlist allow with
     | some name, some sk, some allow =>
-      let id := st.A.nextId
-      let (a, o) := Visitor.step natFixed H st.A (.natListen name sk allow)
-      ({ st with A := a }, verdictOf (if o = .ok then s!"ok:{id}" else "repeated") impl)
+      let id := st.A.s.nextId
+      let (a, o) := Visitor.step natFixed H st.A.s (.natListen name sk allow)
+      ({ st with A := { st.A with s := a } }, verdictOf (if o = .ok then s!"ok:{id}" else "repeated") impl)
     | _, _, _ => (st, .bad "nlisten")
   | ["close", name] =>
     match unhx name with
     | some name =>
-      let z := zombieOf st.A name
-      ({ st with A := (Visitor.step natFixed H st.A (.closeListener name)).1, zombies := st.zombies ++ z }, verdictOf "-" impl)
+      let (a, o) := Visitor.cstep natFixed H st.A (.write (.close name))
+      let ms := match o with | .wrote _ => "-" | .blocked => "blocked" | _ => "?"
+      ({ st with A := a, zombies := st.zombies ++ goneOf st.A.s a.s none }, verdictOf ms impl)
     | none => (st, .bad "close")
   | ["nclose", name] =>
     match unhx name with
-    | some name => ({ st with A := (Visitor.step natFixed H st.A (.natClose name)).1 }, verdictOf "-" impl)
+    | some name => ({ st with A := { st.A with s := (Visitor.step natFixed H st.A.s (.natClose name)).1 } }, verdictOf "-" impl)
     | none => (st, .bad "nclose")
   | ["lclose", name] =>
     match unhx name with
-    | some name => ({ st with A := (Visitor.step natFixed H st.A (.lclose name)).1 }, verdictOf "-" impl)
+    | some name => ({ st with A := (Visitor.cstep natFixed H st.A (.lclose name)).1 }, verdictOf "-" impl)
     | none => (st, .bad "lclose")
   | ["accept", name] =>
     match unhx name with
     | some name =>
-      let (a, o) := Visitor.step natFixed H st.A (.accept name)
-      let ms := match o with | .accepted (some c) => s!"c{c}" | _ => "none"
-      ({ st with A := a }, verdictOf ms impl)
+      let lid := (NatHole.aget st.A.s.listeners name).map (·.lid)
+      let (a, o) := Visitor.cstep natFixed H st.A (.accept name)
+      let (ms, op) := match o, lid with
+        | .other (.accepted (some c)), some lid => (s!"c{c}@{lid}", [c])
+        | _, _ => ("none", [])
+      -- the property on what the implementation handed to the owner: the connection's request carries the
+      -- key and an allowed user of the listener it came out of, and the stream is transparent (C08.transparent)
+      let prop := match parseAccepted impl with
+        | some (c, l, bytesOk) => andOpt (deliveredOk st l c) (some bytesOk)
+        | none => none
+      ({ st with A := a, opened := op ++ st.opened }, verdictOf ms impl prop)
     | none => (st, .bad "accept")
-  | ["conn", name, ts, sign, user, conn, _ec] =>
-    match unhx name, ts.toInt?, unhx sign, unhx user, conn.toNat? with
-    | some name, some ts, some sign, some user, some conn =>
-      let valid := C08.admissibleB H st.A.listeners name ts sign user
-      let (a, o) := Visitor.step natFixed H st.A (.newConn name ts sign user conn)
-      let ms := match o with | .conn c => connOutStr c | _ => "?"
-      ({ st with A := a }, verdictOf ms impl (some (C08.holdsOn valid (grantedImpl impl))))
-    | _, _, _, _, _ => (st, .bad "conn")
-  | ["drain"] => (st, verdictOf (drainStr st) impl)
+  | ["echo", conn] =>
+    match conn.toNat? with
+    | some conn =>
+      (st, verdictOf (if st.opened.contains conn then "ok" else "none") impl (some (impl != "bad")))
+    | none => (st, .bad "echo")
+  | ["conn", name, ts, sign, user, conn, ec] => beginOp st "conn" name ts sign user conn ec impl
+  | ["vbegin", name, ts, sign, user, conn, ec] => beginOp st "vbegin" name ts sign user conn ec impl
+  | ["vend", conn, iv] =>
+    match conn.toNat?, (if iv = "ok" then some true else if iv = "fail" then some false else none) with
+    | some conn, some ivOk =>
+      let fl := st.A.flights.find? (fun f => f.req.conn = conn)
+      let valid := match fl with
+        | some f => C08.admissibleB H st.A.s.listeners f.req.name f.req.ts f.req.sign f.req.user
+        | none => false
+      let (a, o) := Visitor.cstep natFixed H st.A (.finish conn ivOk)
+      let (ms, extra) := match o with
+        | .finished c ws =>
+          (connOutStr c ++ " w=[" ++ ",".intercalate (flushStr st.A.s.nextId st.A.pending ws) ++ "]",
+           match c with | .queued lid => some (lid, conn) | _ => none)
+        | _ => ("noflight", none)
+      let granted := grantedImpl impl && impl != "noflight"
+      ({ st with A := a, zombies := st.zombies ++ goneOf st.A.s a.s extra,
+                 implLs := implListens st.A.pending impl ++ st.implLs },
+       verdictOf ms impl (some (C08.holdsOn valid granted)))
+    | _, _ => (st, .bad "vend")
+  | ["drain"] =>
+    -- everything that waits in any listener the implementation ever made: each must be there rightfully
+    let prop := (parseDrain impl).foldl (fun acc (l, c) => andOpt acc (deliveredOk st l c)) none
+    (st, verdictOf (drainStr st) impl prop)
   | ["natv", name, ts, sign, user, pc, ua] =>
     match unhx name, ts.toInt?, unhx sign, unhx user, flag pc "pc=", flag ua "ua=" with
     | some name, some ts, some sign, some user, some pc, some ua =>
-      if !uaOk st.A.natCfgs name user ua then (st, .bad "ua annotation") else
-      let valid := C08.natAdmB H st.A.natCfgs name ts sign user
+      if !uaOk st.A.s.natCfgs name user ua then (st, .bad "ua annotation") else
+      let valid := C08.natAdmB H st.A.s.natCfgs name ts sign user
       let sid := sidOf st.nsid
-      let (a, o) := Visitor.step natFixed H st.A (.natVisit sid name ts sign user pc)
+      let (a, o) := Visitor.step natFixed H st.A.s (.natVisit sid name ts sign user pc)
       let a' := (Visitor.step natFixed H a (.natDone sid)).1
       let ms := match o with
         | .nat .preOk => "preok"
         | .nat (.granted ch) => s!"sid:{ch}"
         | .nat (.err e) => "err:" ++ errStr e
         | _ => "?"
-      ({ st with A := a', nsid := st.nsid + 1 }, verdictOf (ms ++ " left=0") impl
+      ({ st with A := { st.A with s := a' }, nsid := st.nsid + 1 }, verdictOf (ms ++ " left=0") impl
         (some (C08.holdsOn valid (impl.startsWith "sid:"))))
     | _, _, _, _, _, _ => (st, .bad "natv")
   -- ---------------------------------------------------------------- layer B
@@ -171,7 +282,10 @@ def step (st : St) (tok : List String) (impl : String) : St × Verdict :=
         | .conn (.queued _), some ow => s!"ok:{hx ow}:echo"
         | .conn (.err e), _ => "err:" ++ errStr e ++ " req=-"
         | _, _ => "?"
-      ({ st with B := b' }, verdictOf ms impl (some (C08.holdsOn valid (!(impl.startsWith "err:") || !(impl.endsWith "req=-")))))
+      -- an admitted stream must be transparent both ways (C08.transparent): no "noecho"
+      let echoOk := !(impl.endsWith ":noecho1" || impl.endsWith ":noecho2")
+      ({ st with B := b' }, verdictOf ms impl
+        (some (C08.holdsOn valid (!(impl.startsWith "err:") || !(impl.endsWith "req=-")) && echoOk)))
     | _, _, _, _, _ => (st, .bad "svis")
   | ["snat", rid, name, ts, sign, pc, ua] =>
     match unhx rid, unhx name, ts.toInt?, unhx sign, flag pc "pc=", flag ua "ua=" with
